@@ -230,6 +230,56 @@ def make_state(src_cache, dst, keep, damaged=None, cut=None, garbage=False):
     os.makedirs(moddir(dst), exist_ok=True)
 
 
+def _damage(path, cls, cut):
+    st = os.stat(path)
+    if cls == "garbage":
+        n = os.path.getsize(path)
+        with open(path, "wb") as f:
+            f.write((b"\xde\xad\xbe\xef" * (n // 4 + 1))[:n])
+    else:
+        with open(path, "r+b") as f:
+            f.truncate(cut)
+    os.utime(path, (st.st_atime, st.st_mtime))
+
+
+def pair_cases(order, sizes, tier):
+    """(C) two damaged artefacts at once (what a power loss, or a kill followed by disk damage, leaves behind): every
+    pair of files of the complete cache, product of their damage classes (quick: the classes that behaved
+    differently in (A)/(B): absent / empty / one page / half / garbage)"""
+    def classes(rel):
+        c = [(n, k) for n, k in trunc_classes(sizes[rel], tier) if tier == "thorough" or n in ("empty", "page", "half")]
+        return c + [("garbage", None), ("deleted", None)]
+    cases = []
+    for i, a in enumerate(order):
+        for b in order[i + 1:]:
+            for na, ka in classes(a):
+                for nb, kb in classes(b):
+                    cases.append({"part": "pair", "file": a, "class": na, "cut": ka, "file2": b, "class2": nb, "cut2": kb})
+    return cases
+
+
+def pair_problems(case):
+    src, order = case["src"], case["order"]
+    dst = os.path.join(WORK, "state_%s" % hashlib.sha1(json.dumps(case, sort_keys=True).encode()).hexdigest()[:12])
+    try:
+        make_state(src, dst, list(order))
+        for rel, cls, cut in ((case["file"], case["class"], case["cut"]), (case["file2"], case["class2"], case["cut2"])):
+            if cls == "deleted":
+                os.remove(os.path.join(dst, rel))
+            else:
+                _damage(os.path.join(dst, rel), cls, cut)
+        what = "%s %s and %s %s" % (kind_of(case["file"]), case["class"], kind_of(case["file2"]), case["class2"])
+        res = run_child(dst)
+        probs = verdict(res, what)
+        probs = [("%s:pair:%s+%s" % (k, kind_of(case["file"]), kind_of(case["file2"]))
+                  if k.startswith("recover:crash") or k.startswith("recover:fails") else k, m) for k, m in probs]
+        if not probs and res.get("modname") != case["modname"]:
+            raise RuntimeError("harness: the recovery process generated a different module name: vacuous")
+        return probs
+    finally:
+        shutil.rmtree(dst, ignore_errors=True)
+
+
 def fault_cases(order, sizes, tier):
     cases = []
     # (A) crash prefixes: files before index i complete, file i in flight
@@ -511,6 +561,17 @@ def check_case(case):
                 if case["part"] == "prefix":
                     case["index"] = order.index(cand[0])
         return fault_problems(case)
+    if part == "pair":
+        if not os.path.isdir(case["src"]):
+            src, order, nev, res = clean_build("replay_clean")
+            case = dict(case, src=src, order=order, modname=res.get("modname"))
+            for key in ("file", "file2"):
+                if case[key] not in order:
+                    cand = [r for r in order if kind_of(r) == kind_of(case[key])]
+                    if not cand:
+                        return []
+                    case[key] = cand[0]
+        return pair_problems(case)
     if part == "kill":
         return kill_problems(case)
     if part == "schedule":
@@ -539,6 +600,10 @@ def run(ctx):
     for c in list(cases):
         if c["part"] == "damage" and kind_of(c["file"]) == "so" and c["class"] in ("page", "half"):
             cases.append(dict(c, second=True))
+    pairs = pair_cases(order, sizes, ctx.tier)
+    for c in pairs:
+        c.update(src=src, order=order, modname=res.get("modname"))
+    cases += pairs
     sch = schedules(ctx.tier)
     for same in (True, False):
         for s in sch:
@@ -557,8 +622,10 @@ def run(ctx):
         out.transitions += 1
         out.part(part, cases=1)
         label = {k: v for k, v in case.items() if k not in ("src", "order", "modname")}
-        if part in ("prefix", "damage"):
+        if part in ("prefix", "damage", "pair"):
             label["file"] = kind_of(case["file"])
+            if part == "pair":
+                label["file2"] = kind_of(case["file2"])
         out.nontrivial.add(json.dumps(label, sort_keys=True))
         out.outcomes.add(tuple(sorted(k for k, _ in probs)))
         if part == "race":
@@ -575,11 +642,11 @@ def run(ctx):
     out.sample([c for c in cases if c["part"] == "schedule"][3])
     out.rule = ("fault states: every prefix of the recorded write history x truncation class {empty, 64 B, one page, half, size-1 "
                 "(thorough: k/8, two pages)} + absent; single damages of every artefact of a complete cache (truncations, garbage, "
-                "deletion); a second fault after the first recovery; SIGKILL at every 8th (thorough: 2nd) inotify event; schedules: "
+                "deletion); every pair of artefacts damaged at once (product of damage classes); a second fault after the first recovery; SIGKILL at every 8th (thorough: 2nd) inotify event; schedules: "
                 "all interleavings of the 5+5 stage-boundary releases of two processes with <= 1 preemption (thorough: all 252) for the "
                 "same and for distinct forms; one free-running race (thorough: 2..16 processes). Every state is followed by a request "
                 "in a fresh process. Non-trivial = distinct fault states / schedules.")
-    out.assumptions += ["process death, not power loss: the page cache survives, so only prefixes of the write history (with the file in "
-                        "flight truncated) are possible states", "the requested form is a small 1D form (not precompiled); correctness = "
+    out.assumptions += ["parts prefix/kill model process death (the page cache survives: prefixes of the write history with the file in "
+                        "flight truncated); parts damage/pair model later damage or power loss of one or two artefacts of a complete cache", "the requested form is a small 1D form (not precompiled); correctness = "
                         "the assembled matrix equals the Kronecker/1D reference to 1e-12"]
     return out
